@@ -31,6 +31,8 @@ typedef struct {
     int p16;		/* 16-term universe that also holds standards leaving
 			   a port open; judged by the rank of the documented
 			   linear system (cs_terms_rank16) */
+    int vec;		/* the value parameters of the universe are tabulated
+			   (frequency-dependent vector parameters) */
     int kit;		/* two-port universe of a measured kit: three scalar
 			   reflects per port given as 1x1, a through, and an
 			   isolation standard (match on both ports, explicit
@@ -76,9 +78,14 @@ static const shape_t shapes_quick[] = {
     { VNACAL_T16, 2, 2, 0, 0, 0, 1 }, { VNACAL_U16, 2, 2, 0, 0, 0, 1 },
     /* measured kits: eight or more distinct parameters in one calibration,
        the explicit zero used last */
-    { VNACAL_TE10, 2, 2, 0, 0, 3, 0, 1 }, { VNACAL_UE10, 2, 2, 0, 0, 3, 0, 1 },
-    { VNACAL_UE14, 2, 2, 0, 0, 3, 0, 1 }, { VNACAL_E12, 2, 2, 0, 0, 3, 0, 1 },
-    { VNACAL_T8, 2, 2, 0, 0, 3, 0, 1 },
+    { VNACAL_TE10, 2, 2, 0, 0, 3, 0, 0, 1 }, { VNACAL_UE10, 2, 2, 0, 0, 3, 0, 0, 1 },
+    { VNACAL_UE14, 2, 2, 0, 0, 3, 0, 0, 1 }, { VNACAL_E12, 2, 2, 0, 0, 3, 0, 0, 1 },
+    { VNACAL_T8, 2, 2, 0, 0, 3, 0, 0, 1 },
+    /* standards known from tables: every value parameter is a vector
+       parameter with a frequency dependence */
+    { VNACAL_T8, 2, 2, 0, 0, 0, 0, 1 },   { VNACAL_UE10, 2, 2, 0, 0, 0, 0, 1 },
+    { VNACAL_E12, 2, 2, 0, 0, 0, 0, 1 },  { VNACAL_T16, 2, 2, 0, 0, 0, 0, 1 },
+    { VNACAL_U8, 1, 1, 0, 0, 0, 0, 1 },
 };
 #define NSHAPE_QUICK ((int)(sizeof(shapes_quick) / sizeof(shapes_quick[0])))
 static const shape_t shapes_more[] = {
@@ -307,6 +314,19 @@ static int universe0(cs_scenario *sc, const shape_t *sh, int tier)
 static int universe(cs_scenario *sc, const shape_t *sh, int tier)
 {
     int n = universe0(sc, sh, tier);
+    if (sh->vec) {
+	for (int q = 0; q < sc->nparam; ++q) {
+	    cs_param *pp = &sc->param[q];
+	    if (pp->kind != CSP_SCALAR)
+		continue;
+	    pp->kind = CSP_VECTOR;
+	    pp->c1 = 0.15 * pp->c0 * (0.6 + 0.8 * I);
+	    pp->c2 = 0.1;
+	    pp->npts = 5;
+	    pp->lo = 0.9;
+	    pp->hi = 1.1;
+	}
+    }
     if (sh->abbr) {
 	const cs_vna *v = &sc->vna;
 	for (int k = 0; k < sc->nstd; ++k) {
